@@ -11,6 +11,12 @@ CONSTANTS
   MaxRestarts = 0
   Kinds = {"waive", "stale", "equal", "future"}
   Pols = {"leader"}
+  Vias = {"api"}
+  MaxHolds = 0
+  MaxSnaps = 0
+  MaxInstalls = 0
+  Snap0Set = {"none"}
+  SnapKeeps = TRUE
   Mut = "newest"
 INVARIANTS TypeOK C16_Dense C16_Once C16_StoredAtExpected C16_AckOffset C16_RejectNotStored C16_RejectJustified C16_WaivedAccepted C16_OneWinner C16_NoneNotSilent C16_Answered I_Resolved I_NonOccAll I_Order I_RejectWindow
 VIEW MCView
